@@ -24,6 +24,7 @@ from typing import Any, Dict, Iterator, List, Optional, Sequence, Tuple
 
 from ..core import Ctx, HarnessError, Report, Violation, jhash, mix32
 from .. import rsclient
+from ..gen_state import Stream
 from ..c08_model import (CORE_NAMES, FLAG_NAME, GROUP, INDEX, MEMBERS, NAMES, TEMP_NAMES, WIDTH, Model, mask)
 
 PROPERTY = "C08"
@@ -73,14 +74,14 @@ def _py_read_all(regs: Any, api: Dict[str, Any]) -> List[int]:
     return [regs.get(r) for r in api["enum"]]
 
 
-def _py_roundtrip(regs: Any, api: Dict[str, Any], blob: bool) -> Tuple[Any, int]:
+def _py_roundtrip(regs: Any, api: Dict[str, Any], blob: bool) -> Tuple[Any, str]:
     Snapshot = api["Snapshot"]
     snap = Snapshot.from_registers(regs)
-    n = 0
+    n = ""
     if blob and api["pack"] is not None:
         # exactly what PCE500Emulator.save_snapshot/load_snapshot do with registers.bin + metadata
         payload = api["pack"](snap)
-        n = len(payload)
+        n = bytes(payload).hex()
         vals = api["unpack"](payload)
         snap = Snapshot(pc=vals["pc"], ba=vals["ba"], i=vals["i"], x=vals["x"], y=vals["y"], u=vals["u"],
                         s=vals["s"], f=vals["f"], temps={int(k): int(v) for k, v in snap.temps.items()},
@@ -113,7 +114,7 @@ def py_run(ops: Sequence[Op]) -> List[Any]:
             elif verb in ("rt", "rtb"):
                 before = _py_read_all(regs, api)
                 regs, n = _py_roundtrip(regs, api, verb == "rtb")
-                out.append({"before": before, "after": _py_read_all(regs, api), "blob_len": n})
+                out.append({"before": before, "after": _py_read_all(regs, api), "blob": n})
             elif verb == "collect":
                 out.append(dict(api["Snapshot"].from_registers(regs).to_dict()))
             else:
@@ -161,7 +162,7 @@ def _rs_obs(obs: List[Any], key: str) -> List[Any]:
         elif isinstance(o, list):
             out.append(o[idx])
         elif "before" in o:
-            out.append({"before": o["before"][key], "after": o["after"][key], "blob_len": o.get("blob_len", 0)})
+            out.append({"before": o["before"][key], "after": o["after"][key], "blob": o.get("blob", "")})
         else:
             out.append(o[key])
     return out
@@ -391,10 +392,22 @@ def _to_dict_labels(ops: Sequence[Op], exp: List[Any], py: List[Any]) -> List[st
     return out
 
 
+def _blob_labels(ops: Sequence[Op], py: List[Any], rs: Any) -> List[str]:
+    """Informational only (C16/C17 own the snapshot file format): do both packers emit the same bytes?"""
+    out: List[str] = []
+    if not isinstance(rs, list):
+        return out
+    for op, p, r in zip(ops, py, rs):
+        if op[0] == "rtb" and isinstance(p, dict) and isinstance(r, dict) and p.get("blob") and r.get("blob"):
+            out.append("registers.bin:" + ("py==rs" if p["blob"] == r["blob"] else "py!=rs"))
+    return out
+
+
 def evaluate(ops: Sequence[Op], rs_res: Dict[str, Any]) -> Tuple[List[Violation], List[str], bool]:
     plain, labels, nt = walk_model(ops, detailed=False)
     py_obs = py_run(ops)
     labels += _to_dict_labels(ops, plain, py_obs)
+    labels += _blob_labels(ops, py_obs, rs_res.get("obs"))
     if _fast_ok(ops, plain, py_obs, rs_res.get("obs")):
         return [], labels, nt
     # slow path: same model walk, with the context needed to describe the mismatch
@@ -424,7 +437,10 @@ def evaluate(ops: Sequence[Op], rs_res: Dict[str, Any]) -> Tuple[List[Violation]
     if len(all_obs) == 3 and not viols:
         viols += check_temp_diff(ops, all_obs, case)
     labels += sorted(set(notes))
-    return viols, labels, nt
+    uniq: Dict[str, Violation] = {}
+    for v in viols:  # one verdict per fingerprint and history (TEMP0..13 share the bucket "TEMP")
+        uniq.setdefault(v.key(), v)
+    return list(uniq.values()), labels, nt
 
 
 # --------------------------------------------------------------------------------------------------------
@@ -545,8 +561,6 @@ def _hyp_sequences(seed: int, n: int, min_ops: int = 1) -> List[List[Op]]:
 def stream_sequences(seed: int, shard: int, n: int) -> List[List[Op]]:
     """Cheap deterministic pseudo-random histories (gen_state.Stream): volume next to Hypothesis' variety.
     Half of them concentrate their writes on one overlap group (BA / I / F) to force alias interleavings."""
-    from ..gen_state import Stream
-
     out: List[List[Op]] = []
     focus_groups = ("BA", "I", "F")
     for j in range(n):
@@ -625,9 +639,23 @@ def eval_batch(items: List[Tuple[str, List[Op]]], rep: Report) -> None:
             rep.case(jhash(ops) if nt else None, lab, sample)
 
 
+def _preload() -> None:
+    """Import everything a shard will ever import *before* any Hypothesis generation.
+
+    Hypothesis (>= 6.13x) seeds its integer/text generation with constants harvested from the source of the
+    local modules present in sys.modules, so what it generates depends on which modules are already loaded.
+    Pool workers run several tasks in a timing-dependent order; without this, a worker that had already
+    evaluated a sweep shard (sc62015 / pce500 imported) generated different histories from one that had not,
+    and `distinct_nontrivial` varied between runs of the same seed."""
+    _py_api()
+    import hypothesis  # noqa: F401
+    import hypothesis.strategies  # noqa: F401
+
+
 def _shard(task: Tuple[str, int, int, int, str, int]) -> Report:
     kind, shard, nshards, seed, tier, n = task
     rep = Report()
+    _preload()
     if kind == "hyp":
         # odd shards generate long histories only (Hypothesis otherwise favours short lists)
         items = [("hypothesis", ops) for ops in _hyp_sequences(seed, n, 1 if shard % 2 == 0 else 16)]
@@ -643,6 +671,7 @@ def _shard(task: Tuple[str, int, int, int, str, int]) -> Report:
 
 def run(ctx: Ctx) -> Report:
     rsclient.build()
+    _preload()  # in the parent, so every forked worker starts from the same sys.modules
     rust = rsclient.Rust()
     try:
         names = rust.call({"cmd": "c08.names"}).get("names")
